@@ -159,8 +159,14 @@ def atan_accuracy(V, ctx, cfg, pd2, fine=False):
             V.oblige(ok)
             consts.append((lo, hi, rl, ok))
             if not ok:
-                V.violation("|atan(x) - atan x| <= 5e-5", "atan", "atan is the constant %d on [%d,%d] but 65536*atan(%d) = %.3f" % (rl, lo, hi, lo, float(65536 * tl)),
-                            lib.rp(r, (lo,), "atan accuracy"))
+                # the box of a path may be wider than its domain: the end point is a witness only if it really returns the constant
+                wit = next((x_ for x_ in (lo, hi) if r.conc((x_,)) == ("ret", rl) and not point_ok(x_, ("ret", rl))), None)
+                if wit is not None:
+                    V.violation("|atan(x) - atan x| <= 5e-5", "atan", "atan(%d) = %d (constant on a path with box [%d,%d]) but 65536*atan(%d) = %.3f" % (
+                        wit, rl, lo, hi, wit, float(65536 * R.to_frac(R.atan_iv(R.iv(Fraction(wit, 65536))))[0])), lib.rp(r, (wit,), "atan accuracy"))
+                else:
+                    V.inconc("w_atan [%s]: constant %d on a path with box [%d,%d] is not shown within 5e-5 and neither end point is a counter-example" % (
+                        cfg, rl, lo, hi))
         else:
             work_box_hi = max(work_box_hi, hi)
     acc = [None, None]
@@ -335,8 +341,12 @@ def atan_range(V, ctx, cfg, pd2):
             V.oblige(ok)
             info["segments"].append({"x": [lo, hi], "constant": rl})
             if not ok:
-                V.violation("|atan(x)| <= fixpidiv2", "atan", "atan is the constant %d on [%d,%d], above fixpidiv2 = %d" % (rl, lo, hi, pd2),
-                            lib.rp(r, (lo,), "atan range"))
+                wit = next((x_ for x_ in (lo, hi, (lo + hi) // 2) if r.conc((x_,)) == ("ret", rl)), None)
+                if wit is not None:
+                    V.violation("|atan(x)| <= fixpidiv2", "atan", "atan(%d) = %d (constant on a path with box [%d,%d]), outside [0, fixpidiv2 = %d]" % (
+                        wit, rl, lo, hi, pd2), lib.rp(r, (wit,), "atan range"))
+                else:
+                    V.inconc("atan range [%s]: constant %d on a path with box [%d,%d] and no argument found that returns it" % (cfg, rl, lo, hi))
             continue
         if 0 <= rl and rh <= pd2:
             # the interval of the returned form already lies inside [0, fixpidiv2]: nothing more to show for this path
